@@ -357,7 +357,7 @@ class Inliner:
         return out
 
     # ---- one call
-    def _bind(self, call, fi_callee, caller_node):
+    def _bind(self, call, fi_callee, caller_node, keep=()):
         """(exprs, prelude, renames): parameter substitutions, binding statements, local renames"""
         n = fi_callee.node
         params = [a.arg for a in n.args.posonlyargs + n.args.args]
@@ -406,12 +406,14 @@ class Inliner:
                 prelude.append(ast.copy_location(ast.Assign(targets=[ast.Name(id=new, ctx=ast.Store())], value=a,
                                                             type_comment=None), call))
         for loc in sorted(stored - set(bound)):
+            if loc in keep and loc not in arg_names:
+                continue        # the callee's local is the very variable the caller assigns the result to
             if loc in caller_names or loc in arg_names:
                 renames[loc] = '%s__%s' % (loc, fi_callee.name.strip('_'))
         return exprs, prelude, renames
 
-    def _instantiate(self, fi_callee, call, caller_node):
-        exprs, prelude, renames = self._bind(call, fi_callee, caller_node)
+    def _instantiate(self, fi_callee, call, caller_node, keep=()):
+        exprs, prelude, renames = self._bind(call, fi_callee, caller_node, keep)
         body = [_Subst(exprs, renames).visit(copy.deepcopy(s)) for s in _strip_doc(fi_callee.node.body)]
         return prelude, body
 
@@ -424,7 +426,8 @@ class Inliner:
 
     def as_statements(self, fi_callee, call, caller_node, mode, targets=None):
         """mode: 'tail' (the call's value is returned), 'assign' (to `targets`), 'drop'"""
-        prelude, body = self._instantiate(fi_callee, call, caller_node)
+        keep = tuple(t.id for t in (targets or []) if isinstance(t, ast.Name)) if mode == 'assign' else ()
+        prelude, body = self._instantiate(fi_callee, call, caller_node, keep)
         if mode == 'tail':
             if not _always_exits(body):
                 body = body + [ast.copy_location(ast.Return(value=ast.Constant(value=None)), call)]
@@ -433,6 +436,8 @@ class Inliner:
         def mk(value, node):
             if mode == 'assign':
                 v = value if value is not None else ast.copy_location(ast.Constant(value=None), node)
+                if len(targets) == 1 and isinstance(targets[0], ast.Name) and isinstance(v, ast.Name) and v.id == targets[0].id:
+                    return []       # x = x
                 return [ast.copy_location(ast.Assign(targets=copy.deepcopy(targets), value=v, type_comment=None), node)]
             if value is not None and any(isinstance(x, ast.Call) for x in ast.walk(value)):
                 return [ast.copy_location(ast.Expr(value=value), node)]
